@@ -751,14 +751,51 @@ def extract_block(b: Block, snapshot: str):
     return out, meta
 
 
+class MetaList(list):
+    def __init__(self, *a):
+        super().__init__(*a)
+        self.lemma_canaries = []
+
+
+def _lemma_canaries(text, first_line, out):
+    """Vacuity canary for lemmas: `assert(false);` at the top of every proof fn that has a `requires` clause and a body
+    (admitted axioms are skipped). Records (name, first generated line, last generated line)."""
+    mk = rustlex.mask(text)
+    inserts = []
+    for m in re.finditer(r'\bproof fn (\w+)', mk):
+        head = mk[max(0, mk.rfind('\n\n', 0, m.start())):m.start()]
+        if 'external_body' in text[max(0, m.start() - 200):m.start()].split('\n}')[-1]:
+            continue
+        # house style of the lemma libraries: the body opens with `{` alone at column 0 (specs may contain braces)
+        mo = re.compile(r'\n\{[ \t]*\n').search(mk, m.end())
+        nxt = re.compile(r'\bfn \w+').search(mk, m.end())
+        if not mo or (nxt and nxt.start() < mo.start()):
+            continue
+        ob = mo.start() + 1
+        sig = mk[m.end():ob]
+        if not re.search(r'\brequires\b', sig):
+            continue
+        cb = rustlex.match_close(mk, ob)
+        if 'admit()' in text[ob:cb]:
+            continue
+        inserts.append((ob + 1, m.group(1), text.count('\n', 0, m.start()), text.count('\n', 0, cb)))
+    for pos, name, l0, l1 in sorted(inserts, reverse=True):
+        text = text[:pos] + ' assert(false); ' + text[pos:]
+        out.append((name, first_line + l0, first_line + l1))
+    return text
+
+
 def build_unit(template_path, units_dir, snapshot, canary=False):
     """Assemble the generated Verus file. Returns (text, metas) where metas carry gen line ranges."""
     parts = parse_template(template_path, units_dir)
     out_lines = []
-    metas = []
+    metas = MetaList()
     cur_impl = None
+    lemma_canaries = metas.lemma_canaries
     for kind, p in parts:
         if kind == 'text':
+            if canary:
+                p = _lemma_canaries(p, len(out_lines) + 1, lemma_canaries)
             tl = p.rstrip('\n').split('\n')
             out_lines.extend(tl)
             for ln in tl:
